@@ -4,7 +4,7 @@ Driver for C06 / C07 / C08: runs `Uniflow.Table.step` (with `Ord.id`).
   mode set|seq                      how the op's events are printed (sorted blocks | in order) → "ok"
   ins id ns name hasNode resp nI i… nO o… nP (port nR (rid rname rport)…)…
   free id
-  close
+  close                             (a failing Close answers just `err`)
 
 Answer of an op: `<ret> K <ids> L <links> R <refs> A <active> E <events>` – everything that came out
 of a map is sorted.
@@ -137,8 +137,12 @@ def step (s : St) : List String → St × String
       ({ s with st := st' }, observe s.seq s.st st' r true b)
   | ["close"] =>
     let (st', r, b) := Table.step Ord.id s.st .close
-    -- Close frees unrelated symbols in map order: its events are always compared as a set
-    ({ s with st := st' }, observe false s.st st' r false b)
+    -- Close frees unrelated symbols in map order: its events are always compared as a set; when
+    -- a lifecycle flow fails, which one fails first (and what is left) depends on that order, so
+    -- only the fact that Close failed is compared (it does not depend on the order)
+    match r with
+    | .err _ => ({ s with st := st' }, "err")
+    | _ => ({ s with st := st' }, observe false s.st st' r false b)
   | _ => (s, "bad-op")
 
 def handler : Handler := { σ := St, init := {}, step := step }
